@@ -1,3 +1,21 @@
 import Geo.Props.C04
+import Geo.Props.C05c
 #print axioms Geo.T04_2_elementwise
 #print axioms Geo.T04_3_mask_positionwise
+#print axioms Geo.calcFold_nil
+#print axioms Geo.calcFold_cons
+#print axioms Geo.calcStep_indices_length
+#print axioms Geo.calcStep_indices_outside
+#print axioms Geo.calcStep_ops
+#print axioms Geo.calcStep_r0
+#print axioms Geo.calcFold_indices_length
+#print axioms Geo.calcFold_ops_prefix
+#print axioms Geo.calcFold_r0_suffix
+#print axioms Geo.T05_5_calc_align_all
+#print axioms Geo.T05_5_free_labels_are_positions
+#print axioms Geo.T05_5_free_labels_nodup
+#print axioms Geo.calcFold_split
+#print axioms Geo.items_length
+#print axioms Geo.items_get
+#print axioms Geo.items_blocks
+#print axioms Geo.T04_1_spec_alignment
